@@ -160,6 +160,8 @@ def r3_order_and_multiplicity(ctx: Ctx) -> None:
         rets = returns_of(fn.node)
         ctx.check(len(rets) == 1 and appends and unparse(rets[0].value) == unparse(appends[0].func.value),  # type: ignore[attr-defined]
                   construct + ":returns-list", "returns the list it appended to")
+        inside = [r for r in rets if any(x is r for st_ in lp.body for x in ast.walk(st_))]
+        ctx.check(not inside, construct + ":returns-after-loop", "the list is returned after the whole directive list was walked (a return inside the loop keeps the first value only)")
     pel = ctx.repo.func(PSTATES, "parse_expression_list_inner")
     muts = [c for c in calls_in(pel.node) if isinstance(c.func, ast.Attribute) and c.func.attr in ("insert", "reverse", "sort", "pop", "remove")]
     apps = [c for c in calls_in(pel.node) if isinstance(c.func, ast.Attribute) and c.func.attr == "append"]
